@@ -7,6 +7,10 @@
 //   c17 batch [--dump DIR [--dump-only KEY]] [--pre-malloc N]      reads configurations from stdin, one per line:
 //         run   <key> prog=P size=N seed=S freq=F pick=K afail=A sleep=T tick=L passes=2 reset=seed+state|seed|none
 //               [quarantine=0|1]   (1, the default: no address is reused within a run, see "address quarantine")
+//               [apply=0]   do not re-apply the fault configuration (an earlier line of the process applied it): only
+//                           SetSeed + SetInjectorState precede the run
+//               [frag=<bits>]   bit p: FragmentHeap() before pass p (fiber objects then are not allocated in ascending order)
+//               rec only: [warm=1] draw numbers before SetSeed; [ckextra=k] k extra injection points before the checkpoint
 //         rec   <key> prog=P2 …                  two-phase program, prints the checkpoint pair and the phase-2 digest
 //         rep   <key> prog=P2 … count=C state=Z  fresh start + SetSeed/ForwardToFaultRandomCount/SetInjectorState,
 //                                                then phase 2 only
@@ -16,8 +20,10 @@
 //   c17 sched [--seed S] [--count N]              random scheduler-level scripts, logged request by request, for the
 //                                                 differential of the whole scheduler model (`Sched.step`)
 //   c17 pure                                      prints raw decision inputs/outputs of the real decision functions
-//                                                 (BiList::GetElement, PollRandomElementFromList, Injector, weak CAS,
-//                                                 ForwardToFaultRandomCount) for the differential against the Lean model
+//                                                 (BiList::GetElement, PollRandomElementFromList, Injector incl. state ==
+//                                                 frequency and the SetInjectorState round trip, GetRandNumber with
+//                                                 max = 1 mixed in, weak CAS, ForwardToFaultRandomCount, restore after
+//                                                 draws before SetSeed) for the differential against the Lean model
 //
 // Fiber ids in traces are relative to the id of the run's root fiber (ids are handed out by a process-global counter
 // that is never reset); neither addresses nor pointer-valued words reach the trace (not even as first-appearance
